@@ -186,6 +186,62 @@ let perr e = ps (match e with
 let plog lg = plist (fun (tr, x) -> ps "("; ptr tr; ps " "; pstate x; ps ")") lg
 let plog_tr lg = plist (fun (tr, _) -> ptr tr) lg
 
+(* ---- instance printer ---- *)
+let ptcfg = function Det z -> ps "(d "; pz z; ps ")" | Stoch n -> ps "(s "; pnat n; ps ")"
+let pbtype = function Fifo -> pi 0 | Lifo -> pi 1 | Flex -> pi 2 | Dummy -> pi 3
+let pbrole = function RInput -> pi 0 | ROutput -> pi 1 | RComponent -> pi 2 | RCompensation -> pi 3
+let pbcfg c = ps "("; pbtype c.bc_type; ps " "; pz c.bc_cap; ps " "; pbrole c.bc_role; ps ")"
+let pocfg o = ps "("; ptcfg o.og_freq; ps " "; ptcfg o.og_dur; ps ")"
+let pinst i =
+  ps "(";
+  plist (plist (fun o -> ps "("; pnat o.oc_mach; ps " "; ptcfg o.oc_dur; ps " "; pnat o.oc_tool; ps ")")) i.i_jobs; ps " ";
+  plist (fun m -> ps "("; pbcfg m.mc_pre; ps " "; pbcfg m.mc_in; ps " "; pbcfg m.mc_post; ps " ";
+          plist (fun ((a, b), c) -> ps "("; pnat a; ps " "; pnat b; ps " "; ptcfg c; ps ")") m.mc_setup; ps " ";
+          plist pocfg m.mc_out; ps ")") i.i_machs; ps " ";
+  plist (fun t -> ps "("; pbcfg t.ac_buf; ps " "; plist pocfg t.ac_out; ps ")") i.i_trans; ps " ";
+  plist pbcfg i.i_bufs; ps " ";
+  plist (fun ((a, b), c) -> ps "("; pplace a; ps " "; pplace b; ps " "; ptcfg c; ps ")") i.i_travel; ps " ";
+  pi (if i.i_early then 1 else 0); ps ")"
+
+(* ---- tokenised documents ---- *)
+let p_opt f = function A "-" -> None | x -> Some (f x)
+let p_bspec = function
+  | L [t; c; r] -> { bs_type = p_opt p_btype t; bs_cap = p_opt p_z c; bs_role = p_opt p_brole r }
+  | x -> bad "bspec" x
+let p_pname = function
+  | L [A "m"; n] -> NMach (p_nat n) | L [A "b"; n] -> NBuf (p_nat n) | A "in" -> NIn | A "out" -> NOut | x -> bad "pname" x
+let p_ocomp = function A "am" -> OCAllMach | A "at" -> OCAllTrans | L [A "m"; n] -> OCMach (p_nat n) | x -> bad "ocomp" x
+let p_ddoc = function
+  | L [jobs; tools; setup; log; bufs; machs; outs; init] ->
+      { d_jobs = p_list (p_list (function L [m; d] -> (p_nat m, p_z d) | x -> bad "dop" x)) jobs;
+        d_tools = p_opt (p_list (p_list p_nat)) tools;
+        d_setup = p_opt (p_list (function
+                    | L [m; hdr; rows] -> (p_nat m, (p_list p_nat hdr,
+                        p_list (function L [r; vs] -> (p_nat r, p_list p_z vs) | x -> bad "srow" x) rows))
+                    | x -> bad "setup" x)) setup;
+        d_log = p_opt (function
+                    | L [am; names; rows] ->
+                        { dl_amount = p_opt p_nat am; dl_names = p_list p_pname names;
+                          dl_rows = p_list (function L [r; vs] -> (p_pname r, p_list p_z vs) | x -> bad "lrow" x) rows }
+                    | x -> bad "log" x) log;
+        d_bufs = p_list (function L [l; sp] -> (p_nat l, p_bspec sp) | x -> bad "dbuf" x) bufs;
+        d_machs = (match machs with
+                   | A "-" -> DMNone
+                   | L [A "g"; p; q] -> DMGlobal (p_opt p_bspec p, p_opt p_bspec q)
+                   | L (A "s" :: l) -> DMSpecific (List.map (function
+                        | L [m; p; q] -> (p_nat m, (p_opt p_bspec p, p_opt p_bspec q)) | x -> bad "dms" x) l)
+                   | x -> bad "machs" x);
+        d_outs = p_list (function L [c; du; fr] -> { do_comp = p_ocomp c; do_dur = p_z du; do_freq = p_z fr }
+                                  | x -> bad "dout" x) outs;
+        d_init = (match init with
+                  | L [st; tl; jl; stores] ->
+                      { di_start = p_opt p_z st;
+                        di_tloc = p_list (function L [t; n] -> (p_nat t, p_pname n) | x -> bad "tloc" x) tl;
+                        di_jloc = p_list (function L [j; l] -> (p_nat j, p_nat l) | x -> bad "jloc" x) jl;
+                        di_store = p_list (function L [l; js] -> (p_nat l, p_list p_nat js) | x -> bad "store" x) stores }
+                  | x -> bad "init" x) }
+  | x -> bad "ddoc" x
+
 (* log verbosity: 2 = transitions and post-states, 1 = transitions only, 0 = none *)
 let logv = ref 2
 let plogv lg = match !logv with 2 -> plog lg | 1 -> plog_tr lg | _ -> ps "()"
